@@ -149,7 +149,8 @@ class GroupOp(collections.namedtuple('GroupOp', 'rot trans cartrot indexmap')):
     @classmethod
     def ident(cls, basis):
         """Return a group operation corresponding to identity for a given basis"""
-        return cls(rot=np.eye(3, dtype=int), trans=np.zeros(3), cartrot=np.eye(3),
+        dim = len(basis[0][0])
+        return cls(rot=np.eye(dim, dtype=int), trans=np.zeros(dim), cartrot=np.eye(dim),
                    indexmap=tuple(tuple(i for i in range(len(atomlist))) for atomlist in basis))
 
     def __str__(self):
